@@ -3,6 +3,7 @@ package main
 import (
 	"bytes"
 	"fmt"
+	"io"
 	"math/rand"
 	"reflect"
 
@@ -73,7 +74,7 @@ func c03Class(t *rc.Type) string {
 }
 
 func c03(c *wk.Ctx) {
-	c.Note("rule", "each case: a random signature T (nested lists, maps with comparable keys, tuples, structs over all scalar kinds incl. c C w W and m), the Go type generated proxies use for T, a random edge-biased value v (one case in eight may hold up to three strings / buffers of 4 KiB .. 70 KiB). Three-way oracle: E = reflection encoder output must decode with the reference decoder to v consuming all of E (and equal the reference bytes when T has no map); signature.Parse(T).Reader().Read(E||trailer) must return exactly E; the reflection decoder must recover v from E. Distinct non-trivial = distinct type shapes with at least one composite or a value kind.")
+	c.Note("rule", "each case: a random signature T (nested lists, maps with comparable keys, tuples, structs over all scalar kinds incl. c C w W and m), the Go type generated proxies use for T, a random edge-biased value v (one case in eight may hold up to three strings / buffers of 4 KiB .. 70 KiB). Three-way oracle: E = reflection encoder output must decode with the reference decoder to v consuming all of E (and equal the reference bytes when T has no map); signature.Parse(T).Reader().Read(E||trailer) - from a *bytes.Reader, a *bytes.Buffer or a plain io.Reader in turn - must return exactly E and consume exactly len(E) bytes; the reflection decoder must recover v from E. Distinct non-trivial = distinct type shapes with at least one composite or a value kind.")
 	depth := c.Pick(4, 6)
 	c.Cases("three", c.Pick(100000, 500000), func(i int, rng *rand.Rand) {
 		t := rc.GenType(rng, rc.GenOpts{Depth: depth, Width: 4, Scalars: c03Scalars, ComparableKeys: true, MaxAnonNest: 4})
@@ -169,7 +170,24 @@ func checkThree(c *wk.Ctx, stream string, i int, t *rc.Type, v interface{}, rng 
 	}
 	trailer := make([]byte, rng.Intn(9))
 	rng.Read(trailer)
-	in := bytes.NewReader(append(append([]byte{}, E...), trailer...))
+	// the source is a *bytes.Reader, a *bytes.Buffer (what the bus hands to decoders) or a plain io.Reader which
+	// has no other method (a file, a socket, a pipe: gives as much as it is asked for)
+	full := append(append([]byte{}, E...), trailer...)
+	var in io.Reader
+	var left func() int
+	switch i % 3 {
+	case 0:
+		br := bytes.NewReader(full)
+		in, left = br, br.Len
+	case 1:
+		bb := bytes.NewBuffer(full)
+		in, left = bb, bb.Len
+	default:
+		fr := &fragReader{data: full, plan: func(rem int) int { return rem }}
+		in, left = fr, func() int { return len(fr.data) - fr.off }
+		c.Count("read_from_a_plain_io_reader", 1)
+	}
+	detail["source"] = fmt.Sprintf("%T", in)
 	var got []byte
 	pv, stack = wk.Try(func() { got, err = ty.Reader().Read(in) })
 	if pv != nil {
@@ -180,7 +198,7 @@ func checkThree(c *wk.Ctx, stream string, i int, t *rc.Type, v interface{}, rng 
 		c.Viol(stream, i, "reader=error/"+class, "signature-driven reader rejected the serialization: "+err.Error(), detail)
 		return
 	}
-	if consumed := len(E) + len(trailer) - in.Len(); consumed != len(E) || !bytes.Equal(got, E) {
+	if consumed := len(full) - left(); consumed != len(E) || !bytes.Equal(got, E) {
 		detail["returned"] = hx(got, 96)
 		c.Viol(stream, i, "reader=bytes/"+class, fmt.Sprintf("signature-driven reader consumed %d of %d bytes and returned %d bytes (first difference at %d)", consumed, len(E), len(got), firstDiff(got, E)), detail)
 		return
@@ -188,7 +206,11 @@ func checkThree(c *wk.Ctx, stream string, i int, t *rc.Type, v interface{}, rng 
 	// reflection decoder
 	ptr := reflect.New(goType(t))
 	pv, stack = wk.Try(func() {
-		err = encoding.NewDecoder(encoding.DefaultCap(), bytes.NewReader(E)).Decode(ptr.Interface())
+		var src io.Reader = bytes.NewReader(E)
+		if i%3 == 1 {
+			src = &fragReader{data: E, plan: func(rem int) int { return rem }}
+		}
+		err = encoding.NewDecoder(encoding.DefaultCap(), src).Decode(ptr.Interface())
 	})
 	if pv != nil {
 		c.Viol(stream, i, "decode=panic/"+wk.PanicSite(stack), fmt.Sprintf("reflection decoder panicked: %v", pv), detail)
